@@ -5,6 +5,7 @@ import CM.Driver.Codec
 import CM.Driver.RelOps
 import CM.Model.Shard
 import CM.Model.Impure
+import CM.Model.Loopback
 open Lean
 namespace CM
 
@@ -144,6 +145,33 @@ def opShard (j : Json) : P Json := do
   | .ok (shard, count, idx) => pure (Json.mkObj [("shard", toJson shard), ("count", toJson count), ("idx", toJson idx)])
   | .error e => pure (Json.mkObj [("err", errToJson e)])
 
+/-- `{"op":"loopback", layers|tree, f, inputs, outputs (string or list), final (string or list)}` -/
+def opLoopback (j : Json) : P Json := do
+  let raws ← match j.getObjVal? "tree" with
+    | .ok t => do pure (← pipeOfJson t).flatten
+    | .error _ => (← jArr (← jField j "layers")).mapM rawLayerOfJson
+  let f ← (← jField j "f").getStr?
+  let inputs ← jStrs (← jField j "inputs")
+  let (outputs, single) ← match ← jField j "outputs" with
+    | .str s => pure ([s], true)
+    | o => do pure ((← jStrs o), false)
+  let final ← match ← jField j "final" with
+    | .str s => pure [s]
+    | o => jStrs o
+  -- a list of outputs always goes through a tuple and `itemgetter`, also when it has one element
+  let ls := layersOf raws
+  let outs := if single then outputs else outputs
+  match loopback ls f inputs outs final single with
+  | .error .notReversible => pure (Json.mkObj [("err", .str "ValueError")])
+  | .error (.stack _) => pure (Json.mkObj [("err", .str "GraphError")])
+  | .error .fieldError => pure (Json.mkObj [("err", .str "FieldError")])
+  | .ok res =>
+    let vals := res.map fun (n, e) =>
+      match e with
+      | .term t => (n, Json.mkObj [("sig", toJson (t.inputs.eraseDups.mergeSort strLe)), ("value", valToJson (t.eval fun p => .str ("$" ++ p)))])
+      | .broken _ => (n, Json.mkObj [("err", .str "FieldError")])
+    pure (Json.mkObj [("fields", .arr (vals.map fun (n, o) => Json.arr #[.str n, o]).toArray), ("single", .bool single)])
+
 def dispatch (j : Json) : P Json := do
   let op ← (← jField j "op").getStr?
   match op with
@@ -151,6 +179,7 @@ def dispatch (j : Json) : P Json := do
   | "stack" => opStack j
   | "rel" => opRel j
   | "lru" => opLru j
+  | "loopback" => opLoopback j
   | "shard" => opShard j
   | "ping" => pure (Json.mkObj [("pong", .bool true)])
   | _ => throw s!"unknown op {op}"
